@@ -58,6 +58,7 @@ type World struct {
 	tunnels []*tunnelState
 	rpcs    map[int]*rpcState
 	flags   map[string]bool
+	ids     map[int]int64
 	hands   map[int]*handState
 	hmu     sync.Mutex
 }
@@ -200,6 +201,9 @@ func (w *World) tap(l *link, m proto.Message, err error) {
 	switch m := m.(type) {
 	case *tunnelpb.ClientToServer:
 		s = fmt.Sprintf("emit dir=c2s t=%d id=%d %s", l.id, m.StreamId, descC(m))
+		if ns := m.GetNewStream(); ns != nil {
+			w.noteStreamID(ns.MethodName, m.StreamId)
+		}
 	case *tunnelpb.ServerToClient:
 		s = fmt.Sprintf("emit dir=s2c t=%d id=%d %s", l.id, m.StreamId, descS(m))
 	}
@@ -207,6 +211,26 @@ func (w *World) tap(l *link, m proto.Message, err error) {
 		s += " senderr=" + encErr(err)
 	}
 	w.logf("%s", s)
+}
+
+func (w *World) noteStreamID(method string, id int64) {
+	i := len(method)
+	for i > 0 && method[i-1] >= '0' && method[i-1] <= '9' {
+		i--
+	}
+	if i == len(method) || !strings.Contains(method, "v.S/") {
+		return
+	}
+	r := 0
+	fmt.Sscanf(method[i:], "%d", &r)
+	w.mu.Lock()
+	if w.ids == nil {
+		w.ids = map[int]int64{}
+	}
+	if _, ok := w.ids[r]; !ok {
+		w.ids[r] = id
+	}
+	w.mu.Unlock()
 }
 
 func descC(m *tunnelpb.ClientToServer) string {
@@ -352,6 +376,7 @@ type rpcState struct {
 	tcT      grpctunnel.TunnelChannel
 	tcOpt    bool
 	started  bool
+	order    int64 // stream id observed on the tap for this rpc
 	viaMulti string
 }
 
